@@ -635,3 +635,128 @@ def o10_12_manifest_bytes(mir, tier):
     res.wall_s = time.time() - t0
     if res.violations: res.status = 'violation'
     return res
+
+
+def varint64_summaries(S, V):
+    """u64 varints with symbolic values: one alternative per encoded length (infeasible ones are pruned on the path)."""
+    P = {}
+    def enc_var64(se, env, pc, x):
+        x = se.deref(env, x) if isinstance(x, Ref) else x
+        c = simplify(x)
+        if is_bv_value(c):
+            n = c.as_long(); L = 1
+            while n >> (7 * L): L += 1
+            return lib.one(env, varint_bytes(c, L))
+        return [(varint_len_cond(x, L), varint_bytes(x, L), env.get('$state')) for L in range(1, 11)]
+    P[r'<u64 as VarInt>::encode_var_vec'] = enc_var64
+    def dec_var64(se, env, pc, s):
+        l = V(se, env, s); outs = []; conds = []; val = BitVecVal(0, 64); shift = 0; ended = False
+        for i, b in enumerate(l[:10]):
+            top = simplify(Extract(7, 7, b))
+            if shift < 64: val = val | (ZeroExt(57, Extract(6, 0, b)) << shift)
+            shift += 7
+            fixed = top.as_long() if is_bv_value(top) else None
+            if fixed != 1:
+                c = conds + ([top == 0] if fixed is None else [])
+                outs.append((And(*c) if c else None, Enum('Some', ((simplify(val), bv(i + 1)),)), env.get('$state')))
+            if fixed == 0: ended = True; break
+            if fixed is None: conds = conds + [top == 1]
+        if not ended: outs.append((And(*conds) if conds else None, Enum('None'), env.get('$state')))
+        return outs
+    P[r'<u64 as VarInt>::decode_var'] = dec_var64
+    def concat(se, env, pc, parts):
+        v = parts
+        while isinstance(v, Ref): v = se.deref(env, v)
+        out = []
+        for p_ in v: out += V(se, env, p_)
+        return lib.one(env, out)
+    P[r'(?:std|core|alloc)::slice::<impl \[Vec<u8>\]>::concat'] = concat
+    def append(se, env, pc, a, b):
+        la, lb = V(se, env, a), V(se, env, b)
+        return [(None, (), env.get('$state'), [(a, la + lb), (b, [])])]
+    P[r'Vec::append'] = append
+    S['$patterns'] = dict(list(P.items()) + [(k, v) for k, v in S['$patterns'].items() if k not in P])
+    return S
+
+
+def o13_7_footer_bytes(mir, tier):
+    """`From<&BlockHandle> for Vec<u8>` / `BlockHandle::deserialize` and `TryFrom<&Footer> for Vec<u8>` / `Footer::try_from` over symbolic bytes:
+    the four numbers of the two handles (offset, size of the metaindex and of the index block) each free inside a varint class (1, 2 or 10
+    bytes).  Reference: a footer is exactly 48 bytes - the two handles, zero padding, the 8-byte magic number -, decodes to the same four
+    numbers; a buffer of another length or with any other magic number is rejected; a block handle decodes to its own offset / size and
+    reports the number of bytes it occupies."""
+    fenc = [f for f in mir.fns.values() if f.name == 'try_from' and 'footer::' in f.path and f.self_ty and 'Vec' in f.self_ty]
+    fdec = [f for f in mir.fns.values() if f.name == 'try_from' and 'footer::' in f.path and f.self_ty == 'Footer']
+    henc = [f for f in mir.fns.values() if f.name == 'from' and 'block_handle::' in f.path and f.self_ty and 'Vec' in f.self_ty]
+    hdec = [f for f in mir.fns.values() if f.path.endswith('::deserialize') and 'block_handle::' in f.path]
+    if not (len(fenc) == 1 and len(fdec) == 1 and len(henc) == 1 and len(hdec) == 1): raise Inconclusive('footer / block handle codecs not found uniquely (%d %d %d %d)' % (len(fenc), len(fdec), len(henc), len(hdec)))
+    fenc, fdec, henc, hdec = fenc[0], fdec[0], henc[0], hdec[0]
+    res = Result('O13.7 block handle and footer codecs over symbolic bytes', [henc.path, hdec.path, fenc.path, fdec.path], '')
+    t0 = time.time()
+    names = list(CLASSES)
+    combos = [(a, b, c, d) for a in names for b in names for c in names for d in names]
+    if tier == 'quick': combos = [c for i, c in enumerate(combos) if i % 5 == 0] + [('10 bytes',) * 4]
+    hf = mir.struct_fields('BlockHandle'); ftf = mir.struct_fields('Footer')
+    nL = {'1 byte': 1, '2 bytes': 2, '10 bytes': 10}
+    consts = {}
+    for cls in combos:
+        S, V, F = byte_summaries(mir); S = reader_summaries(S, V); S = varint64_summaries(S, V); P = S['$patterns']
+        P[r'<Vec<u8> as From<&BlockHandle>>::from'] = lambda se, env, pc, h: Delegate(henc, [h])
+        vals = [BitVec(n, 64) for n in ('metaindex_offset', 'metaindex_size', 'index_offset', 'index_size')]
+        pre = [CLASSES[c](v) for c, v in zip(cls, vals)]
+        mh = mir.mk_struct('BlockHandle', offset=vals[0], size=vals[1]); ih = mir.mk_struct('BlockHandle', offset=vals[2], size=vals[3])
+        footer = mir.mk_struct('Footer', metaindex_handle=mh, index_handle=ih)
+        ex = Exec(mir, S, loop_bound=14, opaque_calls_ok=False)
+        case = 'varint classes %s' % (cls,)
+        def encoded(ret, env, pc, ex=ex, vals=vals, cls=cls, case=case):
+            ok = isinstance(ret, Enum) and ret.tag == 'Ok'
+            posts = [('a footer does not serialise', BoolVal(ok))]
+            raw = V(ex, env, ret.fields[0]) if ok else []
+            if ok:
+                hb = []
+                for c, v in zip(cls, vals): hb += varint_bytes(v, nL[c])
+                posts.append(('a serialised footer is not 48 bytes: the two block handles, zero padding, then the 8-byte magic number',
+                              And(BoolVal(len(raw) == 48), lex_eq(raw[:len(hb)], hb), *[b == b8(0) for b in raw[len(hb):40]]) if len(raw) == 48 else BoolVal(False)))
+            for label, post, m in ex.check_posts(posts, pc):
+                res.violations.append({'label': label, 'case': case, 'replay': ['footer_codec']})
+            if not ok or len(raw) != 48: return
+            consts['magic'] = raw[40:]
+            def decoded(ret2, env2, pc2):
+                ok2 = isinstance(ret2, Enum) and ret2.tag == 'Ok'
+                posts = [('a serialised footer does not parse', BoolVal(ok2))]
+                if ok2:
+                    f = ret2.fields[0]; m_, i_ = f[ftf.index('metaindex_handle')], f[ftf.index('index_handle')]
+                    got = [m_[hf.index('offset')], m_[hf.index('size')], i_[hf.index('offset')], i_[hf.index('size')]]
+                    posts.append(('the block handles of a footer (offset / size of the metaindex and index blocks) do not survive serialise + parse', And(*[g == v for g, v in zip(got, vals)]) if all(is_bv(g) for g in got) else BoolVal(False)))
+                res.cases[case] = res.cases.get(case, 0) + 1
+                for label, post, m in ex.check_posts(posts, pc2):
+                    res.violations.append({'label': label, 'case': case, 'model': {str(d): str(m[d]) for d in m.decls()}, 'replay': ['footer_codec']})
+            ex.run_fn(fdec, [list(raw)], dict(env), pc, decoded)
+        ex.top(fenc, [Ref('$f')], {'$state': {}, '$f': footer}, pre, encoded)
+        res.absorb(ex)
+        _panics(res, ex, pre, 'footer_codec')
+    # arbitrary buffers: wrong length, wrong magic number
+    for n in (0, 47, 48, 49):
+        S, V, F = byte_summaries(mir); S = reader_summaries(S, V); S = varint64_summaries(S, V)
+        ex = Exec(mir, S, loop_bound=14, opaque_calls_ok=False)
+        raw = [BitVec('raw%d' % i, 8) for i in range(n)]
+        def parsed(ret, env, pc, ex=ex, n=n, raw=raw):
+            ok = isinstance(ret, Enum) and ret.tag == 'Ok'
+            if n != 48: posts = [('a buffer that is not 48 bytes long parses as a footer', BoolVal(not ok))]
+            else: posts = [('a 48-byte buffer whose last 8 bytes are not the magic number parses as a footer', Or(BoolVal(not ok), lex_eq(raw[40:], consts['magic'])))]
+            res.cases['arbitrary buffer of %d bytes' % n] = res.cases.get('arbitrary buffer of %d bytes' % n, 0) + 1
+            for label, post, m in ex.check_posts(posts, pc):
+                res.violations.append({'label': label, 'buffer_len': n, 'replay': ['footer_codec']})
+        ex.top(fdec, [list(raw)], {'$state': {}}, [], parsed)
+        res.absorb(ex)
+    res.bounds = '%d combinations of varint classes (1 / 2 / 10 bytes) for the four numbers of a footer, values free inside their class; arbitrary buffers of 0, 47, 48, 49 bytes' % len(combos)
+    res.wall_s = time.time() - t0
+    if res.violations: res.status = 'violation'
+    return res
+
+
+def o13_7_confirm(v, out):
+    """Native: footers with offsets / sizes at the varint boundaries go through the real serialiser and parser; buffers of other lengths and
+    with an altered magic number must be rejected."""
+    if out.get('_rc') != 0: return (True, 'native run panicked: %s' % out.get('_stderr', '')[-300:]) if 'panicked' in out.get('_stderr', '') else (False, 'native run failed: %s' % out.get('_stderr', '')[-300:])
+    return (out.get('mismatches', '0') != '0', 'native: %s of %s footers / buffers are handled wrongly (first: %s)' % (out.get('mismatches'), out.get('cases'), out.get('first_mismatch')))
